@@ -297,6 +297,40 @@ func c11Dec(c *fw.Ctx, i int) {
 		}
 		d.TL0PICIDX = uint8(r.Pick(0, 1, 128, 255, r.Intn(256)))
 		d.TID, d.Y, d.KEYIDX = uint8(r.Intn(4)), r.Bool(), uint8(r.Pick(0, 1, 16, 31, r.Intn(32)))
+		if d.X && (d.L || d.T || d.K) {
+			// one receiver, two packets whose descriptors agree in their first octets (flags, picture id) and differ only in
+			// the octets behind them (TL0PICIDX, TID / Y / KEYIDX): the second decode shows the second packet's values
+			d2 := d
+			d2.TL0PICIDX ^= byte(r.Pick(1, 0x55, 0x80))
+			d2.TID ^= 1
+			d2.KEYIDX ^= byte(r.Pick(1, 16))
+			d2.Y = !d.Y
+			var rx codecs.VP8Packet
+			var err1, err2 error
+			if pv, st := fw.Guard(func() {
+				_, err1 = rx.Unmarshal(fw.Exact(append(d.Encode(), 1, 2, 3)))
+				_, err2 = rx.Unmarshal(fw.Exact(append(d2.Encode(), 1, 2, 3)))
+			}); pv != nil {
+				c.Fail("C11/decoder/panic/"+fw.PanicFunc(st), fmt.Sprintf("VP8Packet.Unmarshal panicked: %v", pv), fw.W("stack", st))
+				return
+			}
+			bad := err1 != nil || err2 != nil
+			if !bad && d.L && rx.TL0PICIDX != d2.TL0PICIDX {
+				bad = true
+			}
+			if !bad && d.T && rx.TID != d2.TID {
+				bad = true
+			}
+			if !bad && d.K && rx.KEYIDX != d2.KEYIDX {
+				bad = true
+			}
+			if bad {
+				c.Fail("C11/decoder/reused-receiver/second-of-two-similar-descriptors", fmt.Sprintf("one VP8Packet decoded two descriptors that differ only behind their fourth octet: it shows TL0PICIDX %d TID %d KEYIDX %d (errors %v %v), the second descriptor has %d %d %d",
+					rx.TL0PICIDX, rx.TID, rx.KEYIDX, err1, err2, d2.TL0PICIDX, d2.TID, d2.KEYIDX), fw.W("first", fw.Hex(d.Encode()), "second", fw.Hex(d2.Encode())))
+				return
+			}
+			c.Count("similar_descriptor_pairs_on_one_receiver", 1)
+		}
 		enc := d.Encode()
 		if back, n, err := ref.VP8Parse(append(append([]byte{}, enc...), 0x55)); err != nil || n != len(enc) || back.Encode()[0] != enc[0] {
 			c.HarnessBug("reference VP8 descriptor encoder/parser disagree on " + fw.Hex(enc))
